@@ -207,10 +207,16 @@ func (v *VecDense) CloneFromVec(a Vector) {
 		return
 	}
 	n := a.Len()
+	data := v.mat.Data
+	if v.mat.Inc > 1 {
+		// The elements between those of a strided view belong to the
+		// matrix it was taken from.
+		data = nil
+	}
 	v.mat = blas64.Vector{
 		N:    n,
 		Inc:  1,
-		Data: use(v.mat.Data, n),
+		Data: use(data, n),
 	}
 	if r, ok := a.(RawVectorer); ok {
 		blas64.Copy(r.RawVector(), v.mat)
